@@ -85,6 +85,8 @@ def cbmc_job(job):
             '-DFAULTS=%d' % job.get('faults', 0)]
     if job.get('witness'):
         defs.append('-DWITNESS')
+    if job.get('order'):
+        defs.append('-DORDER')
     cmd = ['cbmc', 'harness.c'] + defs + ['--unwind', str(job['unwind']), '--unwinding-assertions']
     if job.get('solver'):
         cmd.append(job['solver'])
@@ -222,7 +224,7 @@ def run(prop, tier, spec, log, baseline=None, quiet=False):
         for c in caps:
             n, m = (c if isinstance(c, tuple) else (c, 0))
             unwind = spec.get('unwind', lambda n, m: max(3 * n + 8, m + 4, 18))(n, m)
-            base = dict(scen=scen, n=n, m=m, faults=faults, gen=gen, unwind=unwind, timeout=spec.get('timeout', {}).get(tier, 1800))
+            base = dict(scen=scen, n=n, m=m, faults=faults, gen=gen, unwind=unwind, order=spec.get('order', False), timeout=spec.get('timeout', {}).get(tier, 1800))
             jobs.append(dict(base, witness=False))
             jobs.append(dict(base, witness=True))
     log('-- E2/mir2c config=%s: %d functions translated, %d CBMC queries' % (spec.get('tag', 'std'), len(info['functions']), len(jobs)))
@@ -294,7 +296,7 @@ def run(prop, tier, spec, log, baseline=None, quiet=False):
                 confirmed = tried[-1]
                 break
         if confirmed:
-            rdir = os.path.join(VERIF, 'replays', prop)
+            rdir = os.path.join(os.environ.get('VERIF_REPLAY_DIR') or os.path.join(VERIF, 'replays'), prop)
             os.makedirs(rdir, exist_ok=True)
             path = os.path.join(rdir, 'e2_%s_n%d_m%d_f%d.json' % (j['scen'].lower(), j['n'], j['m'], j['faults']))
             rec = dict(engine='E2', property=prop, scenario=j['scen'], n=j['n'], m=j['m'], check=confirmed['check'], cex=confirmed['cex'],
